@@ -4,11 +4,13 @@
 From C12 Require Import Model Spec Lists LinProofs ClassProofs HistProofs.
 
 Definition CacheInv (w : world) : Prop :=
+  lookup (reg w) TT = None /\
   forall k g key l, lookup (gfs w) k = Some g -> lookup (g_cache g) key = Some l ->
-    l <> [] /\ exists id c, registered w key id c /\ co_prec c <> [] /\ l = applicable g (co_prec c).
+    l <> [] /\ ((key = TT /\ l = applicable g [TT]) \/
+                exists id c, registered w key id c /\ co_prec c <> [] /\ l = applicable g (co_prec c)).
 
 Lemma CacheInv_w0 : CacheInv w0.
-Proof. intros k g key l H. discriminate. Qed.
+Proof. split; [reflexivity|]. intros k g key l H. discriminate. Qed.
 
 Lemma CacheInv_heap_reg_gfs : forall w w', heap w' = heap w -> reg w' = reg w -> gfs w' = gfs w -> CacheInv w -> CacheInv w'.
 Proof.
@@ -17,7 +19,7 @@ Qed.
 
 Lemma add_method_cache : forall w k c, CacheInv w -> CacheInv (add_method w k c).
 Proof.
-  intros w k c H k' g key l Hl Hc. unfold add_method in Hl. simpl in Hl.
+  intros w k c [HT H]. split; [exact HT|]. intros k' g key l Hl Hc. unfold add_method in Hl. simpl in Hl.
   destruct (Nat.eq_dec k' k) as [->|Hne].
   - rewrite lookup_set_same in Hl. inversion Hl; subst g. simpl in Hc. discriminate.
   - rewrite lookup_set_other in Hl by assumption. exact (H k' g key l Hl Hc).
@@ -31,9 +33,12 @@ Lemma fold_slot_methods_cache : forall slots w n, CacheInv w -> CacheInv (fold_l
 Proof. induction slots as [|sd r IH]; intros w n H; simpl; [assumption|]. apply IH. apply slot_methods_cache. assumption. Qed.
 
 (* ---- a call ------------------------------------------------------------------------------------ *)
+Lemma hier_nonnil : forall c, hier c <> [].
+Proof. intros c. unfold hier, hier_of. destruct (co_prec c); discriminate. Qed.
+
 Theorem call_gf_spec : forall w k i, Inv w -> CacheInv w -> current w i = true ->
   exists ins c, nth_error (insts w) i = Some ins /\ registered w (co_name c) (i_cid ins) c /\
-    snd (call_gf w k i) = (match applicable (get_gf w k) (co_prec c) with [] => None | l => Some l end) /\
+    snd (call_gf w k i) = (match applicable (get_gf w k) (hier c) with [] => None | l => Some l end) /\
     CacheInv (fst (call_gf w k i)).
 Proof.
   intros w k i HI HC Hcur. unfold current in Hcur.
@@ -42,33 +47,43 @@ Proof.
   destruct (lookup (reg w) (co_name c)) as [id|] eqn:L; [|discriminate].
   apply Nat.eqb_eq in Hcur. subst id.
   exists ins, c. split; [reflexivity|]. split; [split; assumption|].
-  unfold call_gf. rewrite Ei, Gc.
-  destruct (co_prec c) as [|key p] eqn:Ep.
-  - cbn [fst snd]. split; [reflexivity | assumption].
-  - assert (key = co_name c) as Hkey.
-    { destruct HI as [[_ HJ] _]. destruct (HJ (co_name c) (i_cid ins) c (conj L Gc)) as [_ H].
+  unfold call_gf. rewrite Ei, Gc. pose proof HC as [HT HCe].
+  destruct (hier c) as [|key p] eqn:Eh; [exfalso; exact (hier_nonnil c Eh)|].
+  (* the key is t for a class that is not ready, the class name otherwise *)
+  assert (Hkey : (co_prec c = [] /\ key = TT /\ p = []) \/ (co_prec c = key :: p /\ key = co_name c)).
+  { unfold hier, hier_of in Eh. destruct (co_prec c) as [|k0 p0] eqn:Ep.
+    - left. inversion Eh. auto.
+    - right. inversion Eh; subst k0 p0. split; [reflexivity|].
+      destruct HI as [[_ HJ] _]. destruct (HJ (co_name c) (i_cid ins) c (conj L Gc)) as [_ H].
       destruct (H (fun x => x)) as [[_ [_ [Hp _]]]|[Hb _]]; [|congruence]. rewrite Hp in Ep. unfold mk_prec in Ep. inversion Ep. reflexivity. }
-    destruct (lookup (g_cache (get_gf w k)) key) as [l|] eqn:El.
-    + cbn [fst snd]. split; [|assumption].
-      unfold get_gf in El. destruct (lookup (gfs w) k) as [g|] eqn:Eg; [|discriminate].
-      destruct (HC k g key l Eg El) as [Hne [id' [c' [[L' G'] [_ Hl]]]]].
-      rewrite Hkey in L'. rewrite L in L'. inversion L'; subst id'. rewrite Gc in G'. inversion G'; subst c'.
-      unfold get_gf. rewrite Eg. rewrite Ep in Hl. rewrite <- Hl. destruct l; [contradiction | reflexivity].
-    + destruct (applicable (get_gf w k) (key :: p)) as [|a l] eqn:Ea.
-      * cbn [fst snd]. split; [reflexivity | assumption].
-      * cbn [fst snd]. split; [reflexivity|].
-        intros k' g' key' l' Hl' Hc'. cbn [gfs with_gfs] in Hl'.
-        destruct (Nat.eq_dec k' k) as [->|Hne].
-        -- rewrite lookup_set_same in Hl'. inversion Hl'; subst g'. simpl in Hc'.
-           destruct (Nat.eq_dec key' key) as [->|Hk].
-           ++ rewrite lookup_set_same in Hc'. inversion Hc'; subst l'. split; [discriminate|].
-              exists (i_cid ins), c. split; [split; [rewrite Hkey; assumption | assumption]|]. split; [congruence|].
-              rewrite Ep. unfold applicable in *. simpl g_methods. symmetry. assumption.
-           ++ rewrite lookup_set_other in Hc' by assumption.
-              unfold get_gf in Hc'. destruct (lookup (gfs w) k) as [g|] eqn:Eg; [|discriminate].
-              destruct (HC k g key' l' Eg Hc') as [A [id' [c' [B [C Dd]]]]]. split; [assumption|].
-              exists id', c'. split; [assumption|]. split; [assumption|]. unfold get_gf in Dd |- *. rewrite Eg. assumption.
-        -- rewrite lookup_set_other in Hl' by assumption. exact (HC k' g' key' l' Hl' Hc').
+  destruct (lookup (g_cache (get_gf w k)) key) as [l|] eqn:El.
+  + cbn [fst snd]. split; [|assumption].
+    unfold get_gf in El. destruct (lookup (gfs w) k) as [g|] eqn:Eg; [|discriminate].
+    destruct (HCe k g key l Eg El) as [Hne Hd].
+    unfold get_gf. rewrite Eg.
+    assert (l = applicable g (key :: p)) as ->; [|destruct (applicable g (key :: p)); [contradiction | reflexivity]].
+    destruct Hkey as [[Hb [-> ->]]|[Ep Hk]].
+    * destruct Hd as [[_ Hl]|[id' [c' [[L' _] _]]]]; [assumption | congruence].
+    * destruct Hd as [[Hk' _]|[id' [c' [[L' G'] [_ Hl]]]]].
+      -- assert (co_name c = TT) as Hn by congruence. rewrite Hn in L. congruence.
+      -- rewrite Hk in L'. rewrite L in L'. inversion L'; subst id'. rewrite Gc in G'. inversion G'; subst c'. rewrite Ep in Hl. assumption.
+  + destruct (applicable (get_gf w k) (key :: p)) as [|a l] eqn:Ea.
+    * cbn [fst snd]. split; [reflexivity | assumption].
+    * cbn [fst snd]. split; [reflexivity|]. split; [exact HT|].
+      intros k' g' key' l' Hl' Hc'. cbn [gfs with_gfs] in Hl'.
+      destruct (Nat.eq_dec k' k) as [->|Hne].
+      -- rewrite lookup_set_same in Hl'. inversion Hl'; subst g'. simpl in Hc'.
+         destruct (Nat.eq_dec key' key) as [->|Hk].
+         ++ rewrite lookup_set_same in Hc'. inversion Hc'; subst l'. split; [discriminate|].
+            destruct Hkey as [[Hb [-> ->]]|[Ep Hk]].
+            ** left. split; [reflexivity|]. unfold applicable in *. simpl g_methods. symmetry. assumption.
+            ** right. exists (i_cid ins), c. split; [split; [rewrite Hk; assumption | assumption]|]. split; [congruence|].
+               rewrite Ep. unfold applicable in *. simpl g_methods. symmetry. assumption.
+         ++ rewrite lookup_set_other in Hc' by assumption.
+            unfold get_gf in Hc'. destruct (lookup (gfs w) k) as [g|] eqn:Eg; [|discriminate].
+            destruct (HCe k g key' l' Eg Hc') as [A Hd]. split; [assumption|].
+            unfold get_gf. rewrite Eg. simpl g_methods. exact Hd.
+      -- rewrite lookup_set_other in Hl' by assumption. exact (HCe k' g' key' l' Hl' Hc').
 Qed.
 
 (* ---- defclass ------------------------------------------------------------------------------------ *)
@@ -141,8 +156,13 @@ Proof.
   set (w1 := fold_left (fun w sd => slot_methods w n sd) slots w) in *.
   pose proof (fold_slot_methods_cache slots w n HC) as HC1. fold w1 in HC1.
   destruct (fold_slot_methods_frame slots w n) as [Hh1 [Hr1 _]]. fold w1 in Hh1, Hr1.
+  destruct HC1 as [HT1 HC1]. rewrite Hr1 in HT1.
+  assert (n <> TT) as HnT.
+  { unfold g_defclass in G. repeat (apply andb_true_iff in G; destruct G as [G ?]).
+    apply Nat.ltb_lt in G. unfold SO, TT in *. lia. }
+  split; [rewrite Hr; rewrite lookup_set_other by (intro Hc; apply HnT; symmetry; exact Hc); exact HT1|].
   intros k g key l Hl Hc. rewrite Hg in Hl.
-  destruct (HC1 k g key l Hl Hc) as [Hne [id [c [[L1 G1] [Hp Happ]]]]]. split; [assumption|].
+  destruct (HC1 k g key l Hl Hc) as [Hne [[HkT HlT]|[id [c [[L1 G1] [Hp Happ]]]]]]; (split; [assumption|]); [left; split; assumption|]. right.
   rewrite Hr1 in L1. unfold get in G1. rewrite Hh1 in G1. fold (get w id) in G1.
   assert (registered w key id c) as Hreg by (split; assumption).
   pose proof (old_id_lt w HI key id L1) as Hlt.
